@@ -21,7 +21,7 @@ pub use scm::run_scm;
 pub fn run(ctx: &Ctx) -> Report {
     let mut rep = Report::new(
         "fault_enumeration",
-        "(A) fd hand-off codec: every listener count 0..=201 (+253, 254) x address-text class (shortest/longest bindable IPv4, shortest/longest bindable IPv6, mixed) x protocol mix (http, tls, tcp, udp, four-way, tcp+udp) is sent through ScmSocket::send_listeners / receive_listeners over a fresh socketpair with real listening sockets; a case is non-trivial when it carries at least one listener; distinct = distinct (class, mix, count). (B) hand-overs of an in-thread worker played by the harness as main process (ReturnListenSockets, receive, SoftStop, successor started with the descriptors, ActivateListener), plain soft stops, and the old worker dying before the answer / after the descriptors are out / during its soft stop, each under a connecting client fleet and with requests parked in 7 phases; a case is non-trivial when the scenario ran to its end; distinct = distinct (scenario, listener mix bucket, in-flight phases, step order, release steps). (C, thorough) the same hand-over through the real binary's UpgradeWorker with SIGKILL crash points.",
+        "(A) fd hand-off codec: every listener count 0..=201 (+253, 254) x address-text class (shortest/longest bindable IPv4, shortest/longest bindable IPv6, mixed) x protocol mix (http, tls, tcp, udp, four-way, tcp+udp) is sent through ScmSocket::send_listeners / receive_listeners over a fresh socketpair with real listening sockets; a case is non-trivial when it carries at least one listener; distinct = distinct (class, mix, count). (B) hand-overs of an in-thread worker played by the harness as main process (ReturnListenSockets, receive, SoftStop, successor started with the descriptors, ActivateListener), plain soft stops, and the old worker dying before the answer / after the descriptors are out / during its soft stop, each under a connecting client fleet and with exchanges parked in 9 phases (H1 before the response head / mid download / mid upload / awaiting 100 Continue / before a 103 interim response, idle keep-alive, H2 with open streams; WebSocket tunnels and TCP relays are observed, not judged); a case is non-trivial when the scenario ran to its end; distinct = distinct (scenario, listener mix bucket, in-flight phases, step order, release steps). (C, thorough) the same hand-over through the real binary's UpgradeWorker with SIGKILL crash points.",
     );
     let only = ctx.opt("only").map(|s| s.to_ascii_uppercase());
     // a replay re-runs the monitors whose witnesses the file holds, nothing else
@@ -29,12 +29,7 @@ pub fn run(ctx: &Ctx) -> Report {
         let v: serde_json::Value = serde_json::from_str(&std::fs::read_to_string(path).unwrap_or_default()).unwrap_or(serde_json::Value::Null);
         v["witnesses"].as_array().map(|a| a.iter().filter_map(|w| w["monitor"].as_str().and_then(|m| m.split('/').next()).map(|m| m.to_owned())).collect()).unwrap_or_default()
     });
-    // TEMPORARY GATE: monitors B and C report genuine findings that are being repaired / registered;
-    // until that is settled the registered check runs monitor A only (B/C: `--opt bc=1` or `--opt only=B`)
-    let bc_enabled = ctx.opt("bc") == Some("1") || only.is_some() || replayed.is_some();
-    let want = |m: &str| {
-        (m == "A" || bc_enabled) && only.as_deref().is_none_or(|o| o == m) && replayed.as_ref().is_none_or(|r| r.iter().any(|x| x == m))
-    };
+    let want = |m: &str| only.as_deref().is_none_or(|o| o == m) && replayed.as_ref().is_none_or(|r| r.iter().any(|x| x == m));
     let b_case = ctx.opt("case").is_some();
     if want("A") && !b_case {
         run_scm(ctx, &mut rep);
@@ -48,7 +43,7 @@ pub fn run(ctx: &Ctx) -> Report {
     }
     // only (A)'s sub-space is enumerated completely (recorded in `scm_sweep.exhaustive`); (B) and (C)
     // sample schedules, so the run as a whole claims no exhaustiveness
-    if (bc_enabled && only.as_deref() != Some("A")) || b_case || replayed.is_some() {
+    if only.as_deref() != Some("A") || b_case || replayed.is_some() {
         rep.exhaustive = None;
     }
     rep
